@@ -12,11 +12,24 @@ fail() { echo "setup: $*" >&2; exit 2; }
 # 1. runtime patch: verify the GOROOT files are the ones the diffs were made against
 ( cd / && sha256sum -c --quiet "$V/sim/rtpatch/GOROOT.sha256" ) || fail "GOROOT runtime sources differ from the patched baseline"
 mkdir -p "$V/.build/rt" "$V/bin"
-for f in proc select time rand runtime2; do
-  cp "$GOROOT_SIM/src/runtime/$f.go" "$V/.build/rt/$f.go" || fail "copy $f.go"
-  patch -s -p0 "$V/.build/rt/$f.go" < "$V/sim/rtpatch/$f.diff" || fail "patch $f.go"
-done
+: > "$V/.build/rt/files.txt"
+# <GOROOT-relative source> <diff> <patched file name>
+while read -r src diff out; do
+  cp "$GOROOT_SIM/$src" "$V/.build/rt/$out" || fail "copy $src"
+  patch -s -p0 "$V/.build/rt/$out" < "$V/sim/rtpatch/$diff" || fail "patch $src"
+  echo "$src $out" >> "$V/.build/rt/files.txt"
+done <<'LIST'
+src/runtime/proc.go proc.diff proc.go
+src/runtime/select.go select.diff select.go
+src/runtime/time.go time.diff time.go
+src/runtime/rand.go rand.diff rand.go
+src/runtime/runtime2.go runtime2.diff runtime2.go
+src/context/context.go context.diff context.go
+src/math/rand/rand.go mathrand.diff mathrand.go
+src/math/rand/v2/rand.go mathrandv2.diff mathrandv2.go
+LIST
 cp "$V/sim/rtpatch/zz_sim.go" "$V/.build/rt/zz_sim.go"
+echo "src/runtime/zz_sim.go zz_sim.go" >> "$V/.build/rt/files.txt"
 # 2. tools
 ( cd "$V/cmd" && "$GO" build -o "$V/bin/simgen" ./simgen && "$GO" build -o "$V/bin/vcheck" ./vcheck ) || fail "tool build failed"
 echo "setup: ok"
